@@ -42,6 +42,40 @@ PROPS = {
             {"run": "^TestC15$", "quick": 10000, "thorough": 60000},
         ],
     },
+    "C03": {
+        "level": "exploration",
+        "assumptions": [
+            "files are produced by the reference writer in harness/ref (every block partition / size-prefix choice the specification permits)",
+            "the compatibility table for Go targets (gen.Target) is read from the documentation and the codec builder: pointer depth, integer width, float width, null.* wrappers, [N]byte, time.Time for RFC 3339 strings",
+            "narrowing a double that float32 cannot represent is not asserted (the property speaks of integers that do not fit as errors)",
+        ],
+        "units": [
+            regress("C03"),
+            {"run": "^TestC03$", "quick": 6000, "thorough": 30000},
+        ],
+    },
+    "C04": {
+        "level": "exploration",
+        "assumptions": [
+            "metamorphic oracle: the projected decode is compared with the full decode of the same file (the full decode itself is judged by C03)",
+            "files whose values do not fit the full target are outside this property's domain and are counted as 'misfit_skipped'",
+        ],
+        "units": [
+            regress("C04"),
+            {"run": "^TestC04$", "quick": 5000, "thorough": 30000},
+        ],
+    },
+    "C13": {
+        "level": "exploration",
+        "assumptions": [
+            "domain: unions of null with one other type (the general multi-branch union codec has no writer by design), targets whose nullability is aligned with the schema (pointers only under unions or to slices/maps), every schema field covered",
+            "timestamps: floor or truncation to the unit are both accepted; the zero time.Time may be written as null",
+        ],
+        "units": [
+            regress("C13"),
+            {"run": "^TestC13$", "quick": 6000, "thorough": 40000},
+        ],
+    },
     "C14": {
         "level": "exploration",
         "assumptions": [
